@@ -20,10 +20,14 @@ type submitWire struct {
 // submitProbes: block-submit messages also pass through msg.Verify in the receive loop. They do not
 // touch the commit bookkeeping, so only the gate is checked: the message gets past msg.Verify
 // (VerifC31Receive then stops at "other-type") exactly when SubmitMsgSig verifies under the
-// sender's key over BlockStateRoot. Also probes a proposal whose header carries no signature.
+// sender's key over BlockStateRoot.
 func submitProbes(c *hx.Ctx, w *world) {
 	h := &Hist{Label: "probe-submit", N: 4, C: 1, Self: 0, Peers: []uint32{0, 1, 2, 3}, Connected: []uint32{1, 2, 3}, Endorsers: []uint32{1, 2, 3}}
 	r, err := newRun(w, h)
+	if ip, isPanic := err.(*implPanic); isPanic {
+		c.Fail(ip.class(), "a panic escaped from the implementation", h, ip, nil)
+		return
+	}
 	if err != nil {
 		c.Fail("harness:setup", "environment construction", h, err.Error(), nil)
 		return
@@ -53,8 +57,9 @@ func submitProbes(c *hx.Ctx, w *world) {
 			}
 			own := r.ownSigOK(sender, root, sig)
 			var stage string
-			if panicked, msg := hx.Recover(func() { stage, _ = r.env.VerifC31Receive(sender, data) }); panicked {
-				c.Fail("panic:receive", "the receive path panicked on a block-submit message", map[string]interface{}{"sender": sender, "signature": sigKindName(sg)}, msg, nil)
+			if ip := guard("VerifC31Receive (block-submit message)", func() { stage, _ = r.env.VerifC31Receive(sender, data) }); ip != nil {
+				c.Fail(ip.class(), "a panic escaped from the implementation while it handled a block-submit message",
+					map[string]interface{}{"sender": sender, "signature": sigKindName(sg), "wire": string(data)}, ip, "an error return (message dropped)")
 				continue
 			}
 			c.Eval()
@@ -71,26 +76,6 @@ func submitProbes(c *hx.Ctx, w *world) {
 			if !passed && own {
 				c.Count("receive:verifiable-message-dropped")
 			}
-		}
-	}
-	// A proposal whose block header has an empty SigData list: observation outside C31.
-	blk := *r.block(0, 0, false)
-	eblk := *r.block(0, 0, true)
-	hd, ehd := *blk.Header, *eblk.Header
-	hd.SigData, ehd.SigData = nil, nil
-	blk.Header, eblk.Header = &hd, &ehd
-	if data, err := vbft.VerifC31ProposalMsg(&blk, &eblk, nil); err == nil {
-		var stage string
-		panicked, msg := hx.Recover(func() { stage, _ = r.env.VerifC31Receive(0, data) })
-		c.Eval()
-		switch {
-		case panicked:
-			c.Count("own-sig:proposal:absent:deserialize-panics")
-			c.Note("observation outside C31: DeserializeVbftMsg panics on a proposal whose block header has no SigData (blockProposalMsg.UnmarshalJSON indexes SigData[0]): " + firstLine(msg))
-		case stage == vbft.VerifC31Added || stage == vbft.VerifC31PoolErr:
-			c.Fail("receive:own-signature-not-verified:proposal", "a proposal whose block header carries no signature reached the block pool", "proposal without SigData", stage, "dropped")
-		default:
-			c.Count("own-sig:proposal:absent:" + stage)
 		}
 	}
 }
